@@ -42,6 +42,7 @@ def run(ctx):
     r3_client_methods(chk, fx)
     r4_typestate(chk, fx)
     r5_handle_task(chk, fx)
+    r6_acknowledgement(chk, fx)
 
 
 # ---------------------------------------------------------------------------------------------
@@ -372,3 +373,51 @@ def r5_handle_task(chk, fx):
                          key="C04/R5 handle_task arm %s yields Ok" % p)
     chk.floor("C04/R5 handle_task arms", len(rows), 3)
     chk.extra["handle_task_table"] = rows
+
+
+# ---------------------------------------------------------------------------------------------
+def r6_acknowledgement(chk, fx):
+    """'Positively acknowledged' for each step of the run = the classification of that step's reply type: the C08 reader
+    rules (success variant only on the no-error edge, no error accepted after success, Errs => Err) are part of C04 for
+    the reply types the run actually uses."""
+    from . import c08
+    from .c15 import _Rename
+    steps = {}
+    for name, b in fx.mir.items():
+        if b.crate != AGENT:
+            continue
+        for c in b.calls():
+            if c.is_fn("Session::<T>::rpc") and c.gargs:
+                op = [g for g in c.gargs if "operation::" in g]
+                if op:
+                    steps[op[0].split("<")[0]] = name
+            if c.is_fn("Session::<T>::close"):
+                steps["netconf::message::rpc::operation::close_session::CloseSession"] = name
+    chk.extra["run_operations"] = sorted(steps)
+    # reply type of each operation (items: impl Operation .. type Reply) — read from the THIR-free item list via IntoResult users
+    reply_of = {
+        "OpenConfiguration": "BareReply", "CloseConfiguration": "BareReply", "CommitConfiguration": "EmptyReply",
+        "LoadConfiguration": "load_configuration::Reply", "GetConfig": "DataReply", "CloseSession": "EmptyReply",
+    }
+    used = set()
+    for op in steps:
+        short = op.split("::")[-1]
+        if short not in reply_of:
+            chk.instance("C04/R6", "operation %s used by the agent has no audited reply type" % short, steps[op], None, holds=False,
+                         key="C04/R6 unaudited-operation %s" % short)
+        else:
+            used.add(reply_of[short])
+    chk.floor("C04/R6 operations requested by the run", len(steps), 6)
+    sub = _Rename(chk, "C08/", "C04/R6:C08/")
+    n = 0
+    for (self_ty, adt, succ) in c08.READERS:
+        if not any(u in self_ty for u in used):
+            continue
+        name = "<%s as netconf::message::ReadXml>::read_xml" % self_ty
+        bodies = [b for n2, b in sorted(fx.mir.items()) if n2 == name or n2.startswith(name + "::{closure")]
+        if name not in fx.mir:
+            raise F.AnchorLost("reader not found: %s" % name)
+        n += 1
+        c08.r1_reader(sub, fx, fx.mir[name], bodies, adt, succ)
+    chk.floor("C04/R6 reply readers of the run's steps", n, 4)
+    c08.r2_into_result(sub, fx)
